@@ -498,6 +498,7 @@ class Extractor:
         # `if c: ...; continue` (no else) makes the rest of the block run only when c is false: the rest is walked under the
         # frame the else-arm would have had, so that an effect after the skip does not look unconditional
         pushed = 0
+        stmts = _fold_append_loops(stmts)
         try:
             for s in stmts:
                 self.walk_stmt(s)
@@ -1829,6 +1830,66 @@ def _is_recursive(fn) -> bool:
         if isinstance(n, ast.Call) and isinstance(n.func, ast.Name) and n.func.id == name:
             return True
     return False
+
+
+def _append_loop_as_comprehension(name: str, loop) -> Optional[ast.ListComp]:
+    """`for T in IT: [if C:] [for ..:] name.append(E)`  ->  `[E for T in IT if C ...]` (None when the loop is anything else)."""
+    gens = []
+    cur = loop
+    while True:
+        if not isinstance(cur, ast.For) or cur.orelse or len(cur.body) != 1:
+            return None
+        gen = ast.comprehension(target=cur.target, iter=cur.iter, ifs=[], is_async=0)
+        gens.append(gen)
+        inner = cur.body[0]
+        while isinstance(inner, ast.If) and not inner.orelse and len(inner.body) == 1:
+            gen.ifs.append(inner.test)
+            inner = inner.body[0]
+        if isinstance(inner, ast.For):
+            cur = inner
+            continue
+        if (isinstance(inner, ast.Expr) and isinstance(inner.value, ast.Call) and isinstance(inner.value.func, ast.Attribute)
+                and inner.value.func.attr == "append" and isinstance(inner.value.func.value, ast.Name) and inner.value.func.value.id == name
+                and len(inner.value.args) == 1 and not inner.value.keywords and not isinstance(inner.value.args[0], ast.Starred)):
+            elt = inner.value.args[0]
+            break
+        return None
+    for g in gens:
+        for part in [g.iter, g.target, *g.ifs]:
+            if any(isinstance(n, ast.Name) and n.id == name for n in ast.walk(part)):
+                return None
+    if any(isinstance(n, ast.Name) and n.id == name for n in ast.walk(elt)):
+        return None
+    return ast.ListComp(elt=elt, generators=gens)
+
+
+def _fold_append_loops(stmts):
+    """`x = []` directly followed by a loop that only appends to x is the list comprehension with the same generators:
+    both spellings give the same facts."""
+    out = []
+    i = 0
+    changed = False
+    while i < len(stmts):
+        s = stmts[i]
+        tgt = None
+        if isinstance(s, ast.Assign) and len(s.targets) == 1 and isinstance(s.targets[0], ast.Name):
+            tgt, val = s.targets[0], s.value
+        elif isinstance(s, ast.AnnAssign) and isinstance(s.target, ast.Name) and s.value is not None:
+            tgt, val = s.target, s.value
+        if tgt is not None and isinstance(val, ast.List) and not val.elts and i + 1 < len(stmts):
+            lc = _append_loop_as_comprehension(tgt.id, stmts[i + 1])
+            if lc is not None:
+                new = ast.Assign(targets=[ast.Name(id=tgt.id, ctx=ast.Store())], value=lc)
+                ast.copy_location(new, stmts[i + 1])
+                ast.copy_location(lc, stmts[i + 1])
+                ast.fix_missing_locations(new)
+                out.append(new)
+                i += 2
+                changed = True
+                continue
+        out.append(s)
+        i += 1
+    return out if changed else stmts
 
 
 def _assigned_names(body) -> list[str]:
